@@ -73,6 +73,17 @@ class Gen:
             elif mode < 0.5:
                 elems = [str(r.randrange(200))]
                 lst = elems[0]                                  # a single token without braces
+            elif mode < 0.65:
+                # comments and line breaks between the braces are layout, not elements
+                elems = [str(r.randrange(250)) for _ in range(r.randrange(0, 9))]
+                parts = ["{"]
+                for e in elems:
+                    parts.append(e)
+                    k2 = r.random()
+                    if k2 < 0.3: parts.append("; " + r.choice(["c", "note 7", "{ }", "9"]) + "\n")
+                    elif k2 < 0.5: parts.append("\n")
+                if r.random() < 0.3: parts.insert(1, "; leading\n")
+                lst = " ".join(parts) + " }"
             else:
                 elems = [str(r.randrange(250)) for _ in range(r.randrange(0, 17))]
                 lst = "{ " + " ".join(elems) + " }"
@@ -180,6 +191,18 @@ def run(ck):
                 {"mode": "asm", "arch": "z80", "source": p, "expanded_equivalent": q, "harness_case": asm_case("z80", text=p), "expected": b.canon()})
             if sum(1 for v in ck.violations if not v[2]) >= 3:
                 break
+    # a closing directive without its opening one is an error wherever it stands -- also after conditionals that were
+    # false, nested, on one line or inside macros (each must have consumed exactly its own @endif)
+    strays = [(p, tail) for p, q, kinds, _ in pairs if "if" in kinds for tail in ("@endif",)][: (3000 if thorough else 500)]
+    sres = [AsmResult(r) for r in run_cases(harness, [asm_case("z80", text=p + tail + "\n@db 1\n") for p, tail in strays])]
+    ck.evaluations += len(strays)
+    base_ok = {p: res[2 * i].ok for i, (p, q, _, _) in enumerate(pairs)}
+    for (p, tail), a in zip(strays, sres):
+        ck.count("stray-%s:%s" % (tail, a.kind))
+        if a.ok and base_ok.get(p):
+            ck.violation("a stray %s after a complete program is accepted: %r" % (tail, p + tail + "\n"),
+                         {"mode": "asm", "arch": "z80", "source": p + tail + "\n@db 1\n", "harness_case": asm_case("z80", text=p + tail + "\n@db 1\n"), "expected": "DIAG"})
+            break
     # @entropy: same within one expansion, different across expansions (macros, nested, inside arguments, @each)
     ecases = []
     for _ in range(400 if thorough else 80):
